@@ -91,6 +91,8 @@ func runC12(c *report.Ctx) {
 	}
 	c.Clause("2 park primitive")
 	checkManagedThread(c)
+	c.Clause("2b a repeated next returns the same invocation")
+	checkEventBuffer(c, false)
 	c.Clause("3 handlers")
 	checkRuntimeHandlers(c)
 	c.Clause("4 routes")
